@@ -102,7 +102,7 @@ func apisim(t *testing.T, tp *simrt.Tape, opts RunOpts) *Outcome {
 	}
 	for i := 0; i < na; i++ {
 		a := apiAction{Dag: tp.Draw(simrt.SGen, nd)}
-		a.Kind = pick(tp, "start", "start", "start", "stop", "stop", "retry", "suspend", "mark-success", "mark-failed", "mark-failed", "save", "rename", "unknown", "nil", "wait", "wait", "kill")
+		a.Kind = pick(tp, "start", "start", "start", "stop", "stop", "retry", "suspend", "mark-success", "mark-failed", "mark-failed", "save", "rename", "unknown", "nil", "wait", "wait", "kill", "kill-torn")
 		a.ReqSel = pick(tp, 0, 0, 0, 1, 1, 2, 3, 4)
 		a.StepSel = pick(tp, 0, 0, 0, 0, 1, 2)
 		a.WaitMs = pick(tp, 30, 300, 1200, 2500, 6000, 12000)
@@ -127,9 +127,18 @@ func apisim(t *testing.T, tp *simrt.Tape, opts RunOpts) *Outcome {
 	var obs []*apiObs
 	// agent processes adopted from spawns made by blackdagger itself
 	nSpawn := map[string]int{}
+	// which agent processes wrote to which record file (a record that holds no complete status yet, or never
+	// will because its writer was killed inside its first write, cannot be attributed by its content)
+	datWriters := map[string]map[int]bool{}
 	cfg.OnOp = func(op *simrt.OpInfo) {
 		if cw != nil {
 			cw.noteOp(op)
+		}
+		if op.Kind == "write" && op.Proc.Name != "server" && strings.HasSuffix(op.Path, ".dat") {
+			if datWriters[op.Path] == nil {
+				datWriters[op.Path] = map[int]bool{}
+			}
+			datWriters[op.Path][op.Proc.Pid] = true
 		}
 	}
 	specFor := func(path string, sub string) *DagSpec {
@@ -151,17 +160,31 @@ func apisim(t *testing.T, tp *simrt.Tape, opts RunOpts) *Outcome {
 	// with ENOSPC (nothing written): the edit is then refused and must have changed nothing — neither on disk
 	// nor in what the server itself shows afterwards
 	nDiskFaults := 0
-	if chance(tp, 1, 3) {
-		cfg.FaultPlan = func(op *simrt.OpInfo) simrt.Fault {
-			if op.Proc.Name != "server" || op.Kind != "write" || !strings.HasSuffix(op.Path, ".dat") || !tp.Chance(simrt.SFault, 1, 2) {
-				return simrt.Fault{}
-			}
-			op.Proc.W.CountFault("no_space")
-			nDiskFaults++
-			return simrt.Fault{Kind: simrt.FErr, Errno: syscall.ENOSPC}
-		}
-	}
+	noSpace := chance(tp, 1, 3)
 	killAt := map[int]uint64{} // pid -> seq at which the harness killed it
+	// fault "torn_write" (action kill-torn): the agent of the addressed DAG dies in the middle of its next write
+	// to its record; what it leaves is a record whose last line is incomplete
+	tornArmed := ""
+	cfg.FaultPlan = func(op *simrt.OpInfo) simrt.Fault {
+		if op.Kind != "write" || !strings.HasSuffix(op.Path, ".dat") {
+			return simrt.Fault{}
+		}
+		if op.Proc.Name != "server" {
+			if tornArmed != "" && op.Len > 2 && strings.HasPrefix(op.Path, tornArmed) {
+				tornArmed = ""
+				op.Proc.W.CountFault("torn_write")
+				killAt[op.Proc.Pid] = op.Proc.W.NextSeq()
+				return simrt.Fault{Kind: simrt.FTorn, N: pick(tp, op.Len-1, op.Len-1, 1+tp.Draw(simrt.SFault, op.Len-1))}
+			}
+			return simrt.Fault{}
+		}
+		if !noSpace || !tp.Chance(simrt.SFault, 1, 2) {
+			return simrt.Fault{}
+		}
+		op.Proc.W.CountFault("no_space")
+		nDiskFaults++
+		return simrt.Fault{Kind: simrt.FErr, Errno: syscall.ENOSPC}
+	}
 	res := simrt.Run(t, cfg, func(w *simrt.World) {
 		cw = newCLIWorld(w, tp)
 		cw.specFor = specFor
@@ -188,6 +211,19 @@ func apisim(t *testing.T, tp *simrt.Tape, opts RunOpts) *Outcome {
 				switch a.Kind {
 				case "wait":
 					simrt.Sleep(time.Duration(a.WaitMs) * time.Millisecond)
+					continue
+				case "kill-torn":
+					if !a.BadDag {
+						for _, cp := range cw.procs {
+							if cp.spec != nil && cp.proc.Alive() && cp.args[len(cp.args)-1] == dagPath(d) {
+								tornArmed = recordDirPrefix(d)
+								bump(out, "torn_kill_armed")
+								break
+							}
+						}
+					}
+					simrt.Sleep(time.Duration(a.WaitMs) * time.Millisecond)
+					reapOrphans(w)
 					continue
 				case "kill":
 					for _, cp := range cw.procs {
@@ -421,9 +457,30 @@ func apisim(t *testing.T, tp *simrt.Tape, opts RunOpts) *Outcome {
 			}
 		}
 		changed := diffFiles(o.before, o.after, liveReq)
+		if len(changed) > 0 {
+			// ... also a record whose writer lived during the call, whatever the record holds
+			kept := changed[:0]
+			for _, p := range changed {
+				writerLived := false
+				for pid := range datWriters[p] {
+					if sp, ok := spawnSeq[pid]; ok && sp < o.ret && end(pid) > o.inv {
+						writerLived = true
+					}
+				}
+				if !writerLived {
+					kept = append(kept, p)
+				}
+			}
+			changed = kept
+		}
 		refusedMustHoldStill := func(why string) {
 			if len(changed) > 0 {
-				chk.viol("refused-action-changed-state", a.Kind+"/"+why, "%s (%s) was answered %d but changed %v", a.Kind, why, o.resp.Code, changed)
+				det := ""
+				if len(changed) > 0 {
+					b, a2 := o.before[changed[0]], o.after[changed[0]]
+					det = fmt.Sprintf(" (%d bytes before, %d after; %s)", len(b), len(a2), diffHead(a2, b))
+				}
+				chk.viol("refused-action-changed-state", a.Kind+"/"+why, "%s (%s) was answered %d but changed %v%s", a.Kind, why, o.resp.Code, changed, det)
 			}
 			// ... nor what the server itself shows of the addressed run
 			// (what is shown of a run recorded as running depends on whether an agent of the DAG answers at that
@@ -829,3 +886,6 @@ func statusVector(st *model.Status) string {
 	}
 	return v
 }
+
+// recordDirPrefix: the path prefix of the directory that holds the records of d's runs.
+func recordDirPrefix(d *DagSpec) string { return dataDir + "/" + d.File + "-" }
